@@ -242,8 +242,10 @@ theorem loop_condition_runs_once_more (fns : List FnDef) (c : Expr) (b : Block) 
   one guard chain per discriminant with the `_` arms woven in in source order,
   binders assigned from the examinee's fields before the guard, shared arm
   blocks, the default chain only when some variant has no case of its own).
+  Enum constructors `E.V(args…)`: every argument lowered and materialised
+  before the next, then the fields stored.
   Missing from the model (and so from the theorem): script-function calls,
-  `for`, user enum constructors, lists, f-strings; a `match` whose patterns
+  `for`, lists, f-strings; a `match` whose patterns
   name a variant the examinee's type does not have; `drop` instructions and the `stack_slots` bookkeeping; the
   passage from structured MIR to the block/label CFG. -/
 
